@@ -33,6 +33,8 @@ type Monitor struct {
 	rhsRoot map[int]int
 	// dead generations: nodes that must never run again (C08)
 	dead map[int]bool
+	deadBefore map[int]bool // dead before the current pass started
+	everNec    map[int]bool // ever became necessary
 	// whether any pass since the last fully successful one failed
 	failedSince bool
 	Rejected    bool        // some operation so far returned a cycle / height-limit rejection
@@ -44,7 +46,7 @@ type Monitor struct {
 
 func NewMonitor(e *Exec) *Monitor {
 	m := &Monitor{E: e, live: map[int]bool{}, invalided: map[int]bool{}, runsThisPass: map[int]int{},
-		rhsRoot: map[int]int{}, dead: map[int]bool{}, deferred: map[int]int{}, passStart: map[int]int{}}
+		rhsRoot: map[int]int{}, dead: map[int]bool{}, deadBefore: map[int]bool{}, everNec: map[int]bool{}, deferred: map[int]int{}, passStart: map[int]int{}}
 	e.OnEvent = m.onEvent
 	e.OnAction = m.onAction
 	return m
@@ -69,6 +71,7 @@ func (m *Monitor) onEvent(ev Event) {
 			m.add("C10", "necessary-twice", fmt.Sprintf("n%d reported 'became necessary' while already necessary", ev.N))
 		}
 		m.live[ev.N] = true
+		m.everNec[ev.N] = true
 		m.runsThisPass[ev.N] = 0 // a new period of necessity
 	case "EvUnnec":
 		if !m.live[ev.N] {
@@ -196,6 +199,10 @@ func (m *Monitor) eval(id int, depth int) (int, bool) {
 		default:
 			return ref.Inc.Value(), true // history dependent: its held value is an input
 		}
+	case "Pair":
+		a, ok1 := m.eval(ref.Decl[0], depth+1)
+		b, ok2 := m.eval(ref.Decl[1], depth+1)
+		return Bind2Key(a, b), ok1 && ok2
 	case "BindMain":
 		x, ok := m.eval(ref.Bind.Lhs, depth+1)
 		if !ok {
@@ -518,6 +525,40 @@ func (m *Monitor) passOracles(op Op, s Sample) {
 			}
 		}
 	}
+	// C08: every node of a right-hand side discarded in this pass is invalidated in this pass and
+	// its function does not run in it -- not even before the swap
+	swapped := map[int]bool{}
+	for _, ev := range s.Raw {
+		if ev.K == "EvBindFn" {
+			swapped[ev.N] = true
+		}
+	}
+	if len(swapped) > 0 && s.Class == "XOk" {
+		inval := map[int]bool{}
+		ran := map[int]bool{}
+		for _, ev := range s.Raw {
+			if ev.K == "EvInval" {
+				inval[ev.N] = true
+			}
+			if ev.K == "EvInvoked" {
+				ran[ev.N] = true
+			}
+		}
+		for id, ref := range e.Nodes {
+			if ref == nil || !m.dead[id] || m.deadBefore[id] || ref.Scope < 0 || !swapped[ref.Scope] {
+				continue
+			}
+			if !inval[id] && !m.invalided[id] && m.everNec[id] {
+				m.add("C08", "discarded-not-invalidated", fmt.Sprintf("n%d was created by the run of bind n%d's function that this pass replaced, but was not invalidated in this pass", id, ref.Scope))
+			}
+			if ran[id] {
+				m.add("C08", "discarded-ran-in-swapping-pass", fmt.Sprintf("n%d belongs to the right-hand side of bind n%d replaced in this pass, yet its function ran in this pass", id, ref.Scope))
+			}
+		}
+	}
+	for id := range m.dead {
+		m.deadBefore[id] = true
+	}
 	if s.Class != "XOk" {
 		return
 	}
@@ -634,7 +675,7 @@ func (m *Monitor) structural(op Op) {
 // Valid mirrors Engine.op_ok: the operation only refers to nodes of the right kind.
 func (e *Exec) Valid(op Op) bool {
 	user := func(id int) bool {
-		return id >= 0 && id < len(e.Nodes) && e.Nodes[id] != nil && e.Nodes[id].Kind != "BindLhs"
+		return id >= 0 && id < len(e.Nodes) && e.Nodes[id] != nil && e.Nodes[id].Kind != "BindLhs" && e.Nodes[id].Kind != "Pair"
 	}
 	kind := func(id int, k string) bool { return user(id) && e.Nodes[id].Kind == k }
 	var tOK func(t *Texp, root bool) bool
@@ -674,8 +715,8 @@ func (e *Exec) Valid(op Op) bool {
 		}
 	case "PurgeMemo", "ClearMemo":
 		return kind(op.A, "BindMain") && e.Nodes[op.A].Bind.Memo != nil
-	case "NewBind", "NewBindMemo":
-		if !user(op.A) || len(op.Cases) == 0 {
+	case "NewBind", "NewBindMemo", "NewBind2":
+		if !user(op.A) || len(op.Cases) == 0 || (op.K == "NewBind2" && !user(op.B)) {
 			return false
 		}
 		for _, c := range op.Cases {
